@@ -472,3 +472,103 @@ func TestC18Race(t *testing.T) {
 		}
 	})
 }
+
+// ---- unit "reconnect-overlap" (known finding) -------------------------------------------------
+//
+// One client identifier, nothing else going on: the client's connection drops
+// and the client is back at once, several times in a row, so that the broker
+// accepts the new connection while it is still tearing the old one down. The
+// two connections share the session object of the identifier (CONNECT message,
+// will message, acknowledgement queues): the old connection's teardown reads
+// and publishes what the new connection's setup rewrites. Every race report of
+// this history is the recorded finding sig=reconnect-overlap (DESIGN.md
+// section 5); the same operations without the overlap are part of unit "race",
+// where every report is a violation.
+
+type OverlapCase struct {
+	N     int    `json:"n"`     // connections in a row
+	Clean []bool `json:"clean"` // CleanSession per connection (cyclic)
+	Will  []int  `json:"will"`  // will message length per connection, 0 = none (cyclic)
+	Sub   bool   `json:"sub"`   // each connection subscribes
+	Pub   int    `json:"pub"`   // publishes per connection (QoS 1, to a witness)
+}
+
+func runOverlap(c OverlapCase) string {
+	b, err := fix.New(16384, "")
+	if err != nil {
+		return "fixture: " + err.Error()
+	}
+	defer b.Shutdown()
+	W := b.Dial("W")
+	if _, err := W.Connect(wire.ConnectPacket("ovw", true, 120)); err != nil {
+		return ""
+	}
+	W.AutoAck = true
+	W.OnPacket = func(p *codec.Packet, off int64) bool { return p.Type == codec.PUBLISH }
+	W.Send(&codec.Packet{Type: codec.SUBSCRIBE, PacketID: 1, Topics: [][]byte{[]byte("ovr/#")}, QoSs: []byte{1}})
+	W.Barrier()
+	var old []*fix.Conn
+	for i := 0; i < c.N; i++ {
+		cn := b.Dial(fmt.Sprintf("ov%d", i))
+		cn.AutoAck = true
+		cp := wire.ConnectPacket("ovr", c.Clean[i%len(c.Clean)], 120)
+		if w := c.Will[i%len(c.Will)]; w > 0 {
+			cp.ConnectFlags |= 4 | 1<<3
+			cp.WillTopic, cp.WillMessage = []byte("ovr/will"), bytes.Repeat([]byte{byte('a' + i%26)}, w)
+		}
+		if _, err := cn.Connect(cp); err != nil {
+			cn.Close()
+			old = append(old, cn)
+			continue
+		}
+		if c.Sub {
+			cn.SendAsync(codec.Encode(&codec.Packet{Type: codec.SUBSCRIBE, PacketID: 5, Topics: [][]byte{[]byte("ovr/in")}, QoSs: []byte{1}}))
+		}
+		for k := 0; k < c.Pub; k++ {
+			cn.SendAsync(codec.Encode(&codec.Packet{Type: codec.PUBLISH, QoS: 1, PacketID: uint16(10 + k), Topic: []byte("ovr/in"), Payload: []byte("x")}))
+		}
+		cn.BarrierTimeout(5 * time.Second)
+		cn.Close() // and back at once: no waiting for the teardown
+		old = append(old, cn)
+	}
+	for _, o := range old {
+		o.WaitTeardown(10 * time.Second)
+	}
+	W.Close()
+	W.WaitTeardown(10 * time.Second)
+	return ""
+}
+
+func TestC18Overlap(t *testing.T) {
+	rec := ev.New("C18", "reconnect-overlap")
+	defer rec.Flush()
+	if ev.Replaying() {
+		t.Skip()
+	}
+	const sig = "reconnect-overlap"
+	seen := 0
+	rapid.Check(t, func(t *rapid.T) {
+		c := OverlapCase{N: rapid.IntRange(3, 12).Draw(t, "n"), Clean: rapid.SliceOfN(rapid.Bool(), 1, 3).Draw(t, "clean"),
+			Will: rapid.SliceOfN(rapid.SampledFrom([]int{0, 4, 4, 40}), 1, 3).Draw(t, "will"), Sub: rapid.Bool().Draw(t, "sub"), Pub: rapid.IntRange(0, 3).Draw(t, "pub")}
+		runOverlap(c)
+		reps := parseRaceReports(raceLogText())
+		hit := false
+		for _, r := range reps[minInt(seen, len(reps)):] {
+			if !r.Lib {
+				rec.Class("race-report-not-between-two-library-accesses: "+r.Sig[:minInt(len(r.Sig), 160)], 1)
+				continue
+			}
+			hit = true
+			rec.Class("overlap-race: "+r.Sig[:minInt(len(r.Sig), 200)], 1)
+			if !rec.IsKnown(sig) {
+				p := rec.Violation(sig, "race", "data race in the reconnect-overlap history between "+r.Sig+"\n"+r.Text[:minInt(len(r.Text), 3000)], c, nil)
+				t.Fatalf("VIOLATION %s replay=%s", r.Sig, p)
+			}
+		}
+		seen = len(reps)
+		if hit {
+			rec.HitKnown(sig, c)
+		}
+		rec.Case(c, true, "same-identifier-back-before-the-old-teardown-finished")
+	})
+}
